@@ -29,7 +29,7 @@ def run(pid, tier, args):
             gs = []
             i = 0
             while len(gs) < (16 if quick else 40):
-                g = GG.make_grammar(rng, "g%d" % i, extra_kinds=[[], ["token"], ["int8", "int8s"], ["tokens", "token"], ["uint8s", "capt"], ["pstring", "textu"]][i % 6], ks=(1, -1) if (quick or i % 4) else (0, 1, 2, -1), trailing=(i % 5 == 0))
+                g = GG.make_grammar(rng, "g%d" % i, extra_kinds=[[], ["token"], ["int8", "int8s"], ["tokens", "token"], ["uint8s", "capt", "capts"], ["pstring", "textu", "pcapts"]][i % 6], ks=(1, -1) if (quick or i % 4) else (0, 1, 2, -1), trailing=(i % 5 == 0))
                 i += 1
                 gs.append(g)
             # zero-width and optional captures into every field kind (an empty capture must not break setField)
